@@ -101,7 +101,10 @@ class C13(Prop):
     table_groups = ['Chain']
     theorems = ['BtcVerif.C13.' + t for t in (
         'p_eq', 'p_eq_sec2', 'n_eq', 'n_lt_p', 'p_mod_4', 'G_on_curve', 'G_onCurve', 'n_mul_G', 'n_pred_mul_G',
-        'two_mul_G')]
+        'two_mul_G', 'der_roundtrip', 'der_strict', 'derEncode_injective', 'compareBigEndian_sign',
+        'maxModHalfOrder_eq', 'isLowDer_iff_encode', 'isLowDer_iff', 'n_odd', 'lowS_spec', 'signatureToLowS_spec',
+        'sign_spec', 'sign_hash_length', 'wifPayload_eq_spec', 'wif_roundtrip', 'wif_roundtrip_chains',
+        'wif_wrong_version', 'pub_eq_reference')]
     anchors = [('bitcoin/core/key.py', 'CECKey.set_secretbytes'), ('bitcoin/core/key.py', 'CECKey.get_pubkey'),
                ('bitcoin/core/key.py', 'CECKey.set_compressed'), ('bitcoin/core/key.py', 'CECKey.sign'),
                ('bitcoin/core/key.py', 'CECKey.signature_to_low_s'), ('bitcoin/core/key.py', 'CECKey.verify'),
